@@ -373,8 +373,10 @@ def main():
                                   on_trace=on_trace)
         elif fam['mode'] == 'dfs':
             cfg['force_prefix'] = sub
+            # what the rounds beyond the explored depth do: delivered - or, for the bounce property, refused for good, so that
+            # every history ends with a bounce naming whoever is still outstanding
             qdrv.dfs(cfg, make, fam['depth'], max(1, fam['budget'] // 12), on_trace=on_trace,
-                     drain_outcome=(lambda info: 'ok') if not cfg.get('hist') else (lambda info: 'ok'))
+                     drain_outcome=(lambda info: 'P2') if (prop == 'C13' and cfg.get('hist') and sub[-1] % 2) else (lambda info: 'ok'))
         else:
             qdrv.random_walks(cfg, make, max(1, fam['budget'] // 4), fam['depth'], rnd, on_trace=on_trace,
                               drain_outcome=lambda info: rnd.choice(['ok', 'ok', 'T1']))
